@@ -22,6 +22,17 @@ CLAIMED.update({
              text="TLC checks, for every threshold oracle in a grid and every short reward history, routing, learners-only-added, grid distinctness, the schedule invariant and that the running mean as coded (with n/N in place of the learner's own count) is the true mean; Trace_Wrap validates real POO runs call by call against the same operators and compares V_reward/Times with the independently recorded per-learner rewards after every round.",
              note="The branch condition enters as a threshold table from harness/consts.py; rho_max >= 0.84 as the property states.", ref="5/C10"),
 })
+CLAIMED.update({
+ "C04": dict(technique="TLA+ spec TreeBandit.tla (+GPO/POO) model-checked with TLC with a history variable + TLC trace validation of per-round evidence diffs of the real classes",
+             text="TLC explores every reward sequence and tie-break of small T-HOO/HCT/VHCT models with 'evidence of every cell = fold of the history' and 'counts sum to the rounds' as invariants; conformance validates, after every round of real runs, that exactly the credited cells change by (+1, +r, +r^2), reward-list lengths, means and VHCT variances match the exact statistics, and (wrappers) each reward reaches the serving learner or the validation score only.",
+             note="Covers T_HOO, HCT, VHCT, POO, GPO/PCT/VPCT in this round (the remaining algorithms' credit rules are stated in DESIGN.md and are being added with their specs).  Grid rewards so that sums are exact.", ref="5/C04"),
+ "C05": dict(technique="TLA+ spec TreeBandit.tla (fixed-point index, B-law, optimistic descent) model-checked with TLC + TLC trace validation on observed U/B codes with the published formulas recomputed in TLA+ to 5 units of 2^-13",
+             text="Design level: exhaustive TLC runs over reward sequences and tie-breaks with B-law / stop-rule invariants and coverage of the 'threshold grew past a split cell' branch.  Code level: every pull of real runs must return the representative of a cell in PullEnds computed from the observed B-values; after every round the U of each touched cell must equal the TLA+ fixed-point evaluation of the published index (constants from 60-digit tables), untouched cells keep their value, and B = min(U, max children B) holds on every cell including the root.",
+             note="Formula accuracy limited to Tol (about 6e-4; VHCT width +6%); VHCT's per-cell threshold is used as observed (its formula is model-level only).  Constant tables trusted (harness/consts.py).", ref="5/C05"),
+ "C06": dict(technique="TLA+ spec TreeBandit.tla (Grows rule) model-checked with TLC + TLC trace validation of every make_children event of a round against the rule",
+             text="TLC checks on small models that every internal cell was split exactly once, by the rule, at the pulled leaf, and T-HOO's depth bound; conformance requires each round of real runs to contain exactly the expansion Grows predicts (none, or the pulled cell if it was a leaf at the pull and the rule held), inside receive_reward only, with fresh children.",
+             note="Thresholds from the 60-digit tables; VHCT per-cell thresholds as observed.", ref="5/C06"),
+})
 NA_REASON = {
  "C17": "upper bounds of transcendental real functions over a continuum: an enclosure argument; TLA+/TLC has no reals or transcendental functions (DESIGN.md 5/C17)",
 }
